@@ -145,7 +145,7 @@ func gstr[T ~string](i int, v T) { emit(i, []byte(string(v))) }
 func genLitProg(r *rand.Rand, n int) *LitProg {
 	lp := &LitProg{}
 	var decls, mainBody, initBody strings.Builder
-	forms := []string{"string", "string", "string", "typed", "concat", "constref", "bytes", "array", "ptrbytes", "ptrarray"}
+	forms := []string{"string", "string", "string", "typed", "concat", "constref", "conv", "bytes", "array", "ptrbytes", "ptrarray"}
 	strPos := []string{"varinit", "local", "arg", "return", "composite", "field", "mapkey", "mapval", "closure", "generic", "init", "methodarg", "deferarg", "switchtag", "nosplit", "gostmt"}
 	for i := 0; i < n; i++ {
 		ln := litLengths[r.Intn(len(litLengths))]
@@ -227,6 +227,28 @@ func genLitProg(r *rand.Rand, n int) *LitProg {
 				b = a + r.Intn(ln-a+1)
 			}
 			fmt.Fprintf(&mainBody, "\temit(%d, []byte(%s + %s + %s))\n", i, goStringLit(data[:a]), goStringLit(data[a:b]), goStringLit(data[b:]))
+		case "conv":
+			// constant conversions: expressions of type string with a constant value that are neither
+			// literals nor names (the "enum of strings" idiom, string(typedConst))
+			lc.Pos = []string{"typedconst", "untypedconst", "paren", "nested", "folded"}[r.Intn(5)]
+			switch lc.Pos {
+			case "typedconst":
+				fmt.Fprintf(&decls, "const %s myStr = %s\n", id, q)
+				fmt.Fprintf(&mainBody, "\temit(%d, []byte(string(%s)))\n", i, id)
+			case "untypedconst":
+				fmt.Fprintf(&decls, "const %s = %s\n", id, q)
+				fmt.Fprintf(&mainBody, "\temit(%d, []byte((string(%s))))\n", i, id)
+			case "paren":
+				fmt.Fprintf(&mainBody, "\temit(%d, []byte((string)((%s))))\n", i, q)
+			case "nested":
+				fmt.Fprintf(&mainBody, "\temit(%d, []byte(string(myStr(%s))))\n", i, q)
+			case "folded":
+				a := 0
+				if ln > 0 {
+					a = r.Intn(ln + 1)
+				}
+				fmt.Fprintf(&mainBody, "\temit(%d, []byte(%s + string(myStr(%s))))\n", i, goStringLit(data[:a]), goStringLit(data[a:]))
+			}
 		case "constref":
 			// declared as a constant; also used where a compile-time constant is required
 			lc.Pos = "const"
